@@ -245,17 +245,17 @@ impl<'a> PointCloudReaderSimple<'a> {
                     forall|j: int| it.index@ <= j < self.buffer@.len() ==> self.buffer@[j] == mid4.buffer@[j],
 //@stmt 0 before if self\.c2s
         let ghost b1 = self.buffer@;
-        proof { assert forall|j: int| 0 <= j < popped.len() implies b1[j] == (if mid.s2c { spec_to_cartesian(#[trigger] popped[j]) } else { popped[j] }) by {} }
+        proof { assert /*[C05]*/ forall|j: int| 0 <= j < popped.len() implies b1[j] == (if mid.s2c { spec_to_cartesian(#[trigger] popped[j]) } else { popped[j] }) by {} }
 //@stmt 0 before if self\.i2c
         let ghost b2 = self.buffer@;
-        proof { assert forall|j: int| 0 <= j < popped.len() implies b2[j] == (if mid.c2s { spec_to_spherical(#[trigger] b1[j]) } else { b1[j] }) by {} }
+        proof { assert /*[C05]*/ forall|j: int| 0 <= j < popped.len() implies b2[j] == (if mid.c2s { spec_to_spherical(#[trigger] b1[j]) } else { b1[j] }) by {} }
 //@stmt 0 before if self\.transform
         let ghost b3 = self.buffer@;
-        proof { assert forall|j: int| 0 <= j < popped.len() implies b3[j] == (if mid.i2c { spec_intensity_to_color(#[trigger] b2[j]) } else { b2[j] }) by {} }
+        proof { assert /*[C05]*/ forall|j: int| 0 <= j < popped.len() implies b3[j] == (if mid.i2c { spec_intensity_to_color(#[trigger] b2[j]) } else { b2[j] }) by {} }
 //@call shim_reserve_deque 0 before
         let ghost fin = self.buffer@;
         proof {
-            assert forall|j: int| 0 <= j < popped.len() implies fin[j] == (if mid.transform { spec_transform(#[trigger] b3[j], mid.rotation, mid.translation) } else { b3[j] }) by {}
+            assert /*[C05]*/ forall|j: int| 0 <= j < popped.len() implies fin[j] == (if mid.transform { spec_transform(#[trigger] b3[j], mid.rotation, mid.translation) } else { b3[j] }) by {}
             // C05: every decoded point went through the documented pipeline
             assert forall|j: int| 0 <= j < popped.len() implies fin[j] == #[trigger] old(self).post(popped[j]) by {
                 assert(b1[j] == (if mid.s2c { spec_to_cartesian(popped[j]) } else { popped[j] }));
@@ -265,7 +265,7 @@ impl<'a> PointCloudReaderSimple<'a> {
         }
 //@stmt 0 before Some\(Error::internal\(
             // C05: the simple iterator fails only where the raw iterator (advance / pop) fails: this branch must be unreachable
-            proof { assert(false); }
+            proof { assert(/*[C05,C03]*/ false); }
 //@stmt 1 before Some\(Ok\(point\)\)
             proof { assert(old(self).delivered(popped, Some(Ok::<Point, Error>(point)), self.points@)); }
 //@endfn
